@@ -62,6 +62,48 @@ def reused_tracer_paths(ctx, nprog):
     return out
 
 
+def shape_text(ap):
+    out = []
+    for a in ap:
+        if a[0] == "W":
+            out.append("W" + ";".join(f"{tuple(g.x_positions)}x{tuple(g.y_positions)}" for g in a[1]))
+        else:
+            out.append(f"S({a[1]},{a[4]},{a[5]})")
+    return " ".join(out)
+
+
+def rendered_paths(ctx, corpus):
+    """drawing a path with the library's renderer must leave the path as it was (it is played, reversed, replayed later)"""
+    from kirin.dialects import ilist
+    from bloqade.shuttle.dialects import path as path_d
+    from vcommon import stubs
+    try:
+        rnd = stubs.matplotlib_renderer()
+    except Exception as e:
+        ctx.obligation("the library's MatplotlibRenderer can be driven with mock pyplot objects", False, f"{type(e).__name__}: {e}"[:200])
+        return
+    n = 0
+    for kind, rep, p in corpus:
+        segs = [a for a in tc.abstract_path(p) if a[0] == "W" and a[1]]
+        if not segs:
+            continue
+        nx, ny = segs[0][1][0].shape
+        before = shape_text(tc.abstract_path(p))
+        try:
+            rnd.render_path(path_d.Path(ilist.IList(range(nx)), ilist.IList(range(ny)), p))
+        except Exception as e:
+            ctx.hist("rendering", "renderer raised " + type(e).__name__)
+            continue
+        after_ap = tc.abstract_path(p)
+        n += 1
+        ctx.hist("rendering", "rendered")
+        if shape_text(after_ap) != before:
+            ctx.fail({"kind": "path-changed-by-rendering", "from": kind.split(":")[0]}, dict(rep, which="traced, then drawn with MatplotlibRenderer.render_path"),
+                     f"drawing the path changed it: {before[:120]} became {shape_text(after_ap)[:120]}" +
+                     (f" (now ill formed: {tc.wf_py(after_ap)})" if tc.wf_py(after_ap) else ""))
+    ctx.count("paths drawn by the library renderer and re-read", n)
+
+
 def run(ctx):
     from bloqade.shuttle.codegen import taskgen as T
     ctx.rule = ("paths traced from generated kernels (loops, branches, helpers, closures, all argument tuples on which tracing succeeds), "
@@ -69,6 +111,7 @@ def run(ctx):
     corpus = [("generated", {"src": s, "args": repr(a)}, r) for s, a, r in tc.traced_corpus(ctx, ctx.pick(250, 3000), p_err=0.05)]
     corpus += [("library:" + n, {"kernel": n, "args": a}, r) for n, a, r in library_paths(ctx)]
     corpus += [("reused-tracer", rep, r) for rep, r in reused_tracer_paths(ctx, ctx.pick(120, 1200))]
+    rendered_paths(ctx, corpus[:ctx.pick(150, 1500)])
     cases = []
     for kind, rep, p in corpus:
         for which, q in (("traced", p), ("reversed", T.reverse_path(p))):
@@ -139,6 +182,15 @@ def replay(data):
     st, r = tc.run_impl(m, args, S)
     if st != "ok":
         return False, "tracing fails now"
+    if str(inp.get("which", "")).startswith("traced, then drawn"):
+        from bloqade.shuttle.dialects import path as path_d
+        from vcommon import stubs
+        segs = [a for a in tc.abstract_path(r) if a[0] == "W" and a[1]]
+        nx, ny = segs[0][1][0].shape
+        before = shape_text(tc.abstract_path(r))
+        stubs.matplotlib_renderer().render_path(path_d.Path(ilist.IList(range(nx)), ilist.IList(range(ny)), r))
+        after = shape_text(tc.abstract_path(r))
+        return after != before, "the drawn path " + ("changed" if after != before else "is unchanged")
     q = r if inp.get("which") == "traced" else T.reverse_path(r)
     why = tc.wf_py(tc.abstract_path(q))
     return why is not None, why or "well formed"
